@@ -680,8 +680,11 @@ class BufferByteArray(XBuffer):
 
     def update_from_buffer(self, offset, source):
         """Copy data from python buffer such as bytearray, bytes, memoryview, numpy array.data"""
-        # len() of a typed memoryview (numpy array.data) counts items
-        nbytes = getattr(source, "nbytes", len(source))
+        # len() of a typed buffer (numpy array.data, array.array) counts items
+        try:
+            nbytes = memoryview(source).nbytes
+        except TypeError:  # not a buffer, e.g. a list of small integers
+            nbytes = len(source)
         self.buffer[offset : offset + nbytes] = source
 
     def to_nplike(self, offset, dtype, shape):
@@ -733,8 +736,11 @@ class BufferNumpy(XBuffer):
 
     def update_from_buffer(self, offset, source):
         """Copy data from python buffer such as bytearray, bytes, memoryview, numpy array.data"""
-        # len() of a typed memoryview (numpy array.data) counts items
-        nbytes = getattr(source, "nbytes", len(source))
+        # len() of a typed buffer (numpy array.data, array.array) counts items
+        try:
+            nbytes = memoryview(source).nbytes
+        except TypeError:  # not a buffer, e.g. a list of small integers
+            nbytes = len(source)
         self.buffer[offset : offset + nbytes] = bytearray(source)
 
     def to_nplike(self, offset, dtype, shape):
